@@ -1227,6 +1227,9 @@ def _collect(ev, it, d):
             break
         elif cur[0] in ("cases", "ite"):
             return map_leaves(cur, lambda x: _collect(ev, x, d))
+        elif cur[0] in ("call", "p", "fld", "vfld"):
+            src = cur           # an opaque iterator value (e.g. str::split(..)) is its own source
+            break
         else:
             raise Undecided("collect over unsupported iterator %r" % (cur[0],))
     ops.reverse()
